@@ -23,7 +23,7 @@ ASSUMPTIONS = ["user-supplied purification modules have a zero auxiliary bias (t
 COUNTS = ("states = histories (no merging); transitions = operations executed; traces_validated_against_impl = histories whose every "
           "invariant held")
 OPS = ["reinit", "fit-sgd", "fit-momentum", "fit-adam", "fit-weight-decay", "fit-nobases", "mutate-am", "mutate-ph"]
-MODES = ["sizes", "sizes-default", "sizes-gpu-flag", "module", "module-default-hidden", "module-zero-weights"]
+MODES = ["sizes", "sizes-default", "sizes-gpu-flag", "sizes-numpy-ints", "module", "module-default-hidden", "module-zero-weights"]
 DATA = torch.tensor([[0.0, 1.0, 1.0], [1.0, 1.0, 0.0], [1.0, 0.0, 0.0]], dtype=torch.double)
 BASES = np.array([list("ZZZ"), list("XYZ"), list("YZX")])
 
@@ -88,6 +88,11 @@ def construct(kind, mode, why):
         shapes = (3, 3 if nh is None else 2, 4)
     elif mode == "sizes":
         st = call(T, 3, 2, gpu=False) if kind != "mixed" else call(T, 3, 2, 4, gpu=False)
+        shapes = (3, 2, 4)
+    elif mode == "sizes-numpy-ints":
+        # the sizes as numpy integers (an element of a sweep array): the requested shapes all the same
+        import numpy as _np
+        st = call(T, _np.int64(3), _np.int32(2), gpu=False) if kind != "mixed" else call(T, _np.int64(3), _np.int32(2), _np.int64(4), gpu=False)
         shapes = (3, 2, 4)
     elif mode == "sizes-gpu-flag":
         # gpu=True on a machine without a GPU is documented to fall back to the CPU with a warning
